@@ -8,6 +8,7 @@ import (
 	"encoding/json"
 	"errors"
 	"fmt"
+	"math"
 	"sort"
 	"strconv"
 	"strings"
@@ -54,7 +55,12 @@ func convert(v any, pt string) (any, convStatus) {
 		case int64:
 			return strconv.FormatInt(x, 10), convOK
 		case float64:
-			return strconv.FormatFloat(x, 'f', -1, 64), convOK
+			// "decimal text": asserted only where it is unambiguous: a fractional value whose
+			// plain and shortest notations coincide (10.0 -> "10" or "10.0"? 1e21?)
+			if d := strconv.FormatFloat(x, 'f', -1, 64); d == strconv.FormatFloat(x, 'g', -1, 64) && x != math.Trunc(x) {
+				return d, convOK
+			}
+			return nil, convUnspecified
 		}
 		return nil, convUnspecified // bool, nil, containers -> string: not documented
 	case "int", "int64", "float64":
@@ -189,8 +195,9 @@ func init() {
 	reg(&fnSpec{name: "title", params: []string{"any"}, builtin: true,
 		accepts: func(v any) bool { s, ok := v.(string); return ok && isLowerAlpha(s) },
 		call:    func(in []any) (any, error) { return titleWords(in[0].(string)), nil }})
-	reg(&fnSpec{name: "escape", params: []string{"any"}, builtin: true, accepts: isStr, // harmless strings only: identity
-		call: func(in []any) (any, error) { return in[0], nil }})
+	reg(&fnSpec{name: "escape", params: []string{"any"}, builtin: true, // harmless strings only: identity
+		accepts: func(v any) bool { s, ok := v.(string); return ok && !strings.ContainsAny(s, `<>&'"`) },
+		call:    func(in []any) (any, error) { return in[0], nil }})
 	reg(&fnSpec{name: "default", params: []string{"any", "any"}, builtin: true,
 		accepts: func(v any) bool { return v == nil || isStr(v) },
 		call: func(in []any) (any, error) {
@@ -221,8 +228,9 @@ func init() {
 	reg(&fnSpec{name: "int", params: []string{"any"}, builtin: true, shared: true,
 		accepts: func(v any) bool { _, st := convert(v, "int"); return st == convOK },
 		call:    func(in []any) (any, error) { v, _ := convert(in[0], "int"); return v, nil }})
-	reg(&fnSpec{name: "string", params: []string{"any"}, builtin: true, shared: true, accepts: isScalar,
-		call: func(in []any) (any, error) { return fmt.Sprint(in[0]), nil }})
+	reg(&fnSpec{name: "string", params: []string{"any"}, builtin: true, shared: true,
+		accepts: func(v any) bool { _, st := convert(v, "string"); _, isB := v.(bool); return st == convOK || isB },
+		call:    func(in []any) (any, error) { return fmt.Sprint(in[0]), nil }})
 	reg(&fnSpec{name: "json", params: []string{"any"}, builtin: true,
 		accepts: func(v any) bool { return isScalar(v) || isContainer(v) },
 		call: func(in []any) (any, error) {
@@ -277,13 +285,13 @@ func init() {
 		impl: func(v, w any) string { return fmt.Sprint(v) + "-" + fmt.Sprint(w) },
 		call: func(in []any) (any, error) { return fmt.Sprint(in[0]) + "-" + fmt.Sprint(in[1]), nil }})
 	reg(&fnSpec{name: "joinv", params: []string{"string"}, variadic: true,
-		impl: func(parts ...string) string { return "<" + strings.Join(parts, "+") + ">" },
+		impl: func(parts ...string) string { return "(" + strings.Join(parts, "+") + ")" },
 		call: func(in []any) (any, error) {
 			var p []string
 			for _, x := range in {
 				p = append(p, x.(string))
 			}
-			return "<" + strings.Join(p, "+") + ">", nil
+			return "(" + strings.Join(p, "+") + ")", nil
 		}})
 	reg(&fnSpec{name: "sum", params: []string{"int", "int"}, variadic: true,
 		impl: func(first int, more ...int) int {
